@@ -67,8 +67,10 @@ def obs_class(want, got):
         if isinstance(want, str):
             return "other-exception"
         return "exception"
-    if isinstance(want, str):
+    if isinstance(want, str) or (len(want) == 2 and len(got) == 3):
         return "no-exception"
+    if len(got) == 2 and len(want) == 3:
+        return "exception"
     if got[0] != want[0]:
         return "wrong-iterations"
     if len(got) > 2 and len(want) > 2 and got[2] != want[2]:
@@ -93,6 +95,11 @@ class Table(object):
 # range part
 
 
+def special(signed, form, s):
+    """Special() of the spec: unsigned target and a decreasing loop variable"""
+    return (not signed) and ((s < 0) if form == "fwd" else (s > 0))
+
+
 def range_tables(rows8, tier, rng, rep, stats):
     tabs = {tag: Table("c14r_" + tag) for tag, _, _, _ in L.RTYPES}
     # (R1) real 8-bit types: the rows TLC published for (w=8, pw=24) are replayed as they are
@@ -108,7 +115,8 @@ def range_tables(rows8, tier, rng, rep, stats):
                 want = list(L.apply_body(seq, bk, ck))
                 for bounds, ty, mm, ee in (("t", ty_t, m, ev), ("o", ty_o, om, oe)):
                     pred = None
-                    desc = {"part": "range", "type": tag, "signed": bool(r["s"]), "bounds": bounds, "form": form, "cause": "", "dev": False}
+                    desc = {"part": "range", "type": tag, "signed": bool(r["s"]), "bounds": bounds, "form": form, "cause": "", "dev": False,
+                            "special": special(bool(r["s"]), form, s)}
                     if L.exposed(mm, ee, bk, ck):
                         _, hz = L.classify(ty, form, a, b, s, bk, ck, L.CAP8)
                         desc["cause"], desc["dev"], pred = hz["cause"], hz["dev"], hz["pred"]
@@ -133,7 +141,8 @@ def range_tables(rows8, tier, rng, rep, stats):
                                     stats["skipped_long"] += 1
                                     continue
                                 want = list(L.apply_body(L.ref_seq(form, a, b, s, L.CAPW + 1), bk, ck))
-                                desc = {"part": "range", "type": tag, "signed": signed, "bounds": bounds, "form": form, "cause": "", "dev": False}
+                                desc = {"part": "range", "type": tag, "signed": signed, "bounds": bounds, "form": form, "cause": "", "dev": False,
+                                        "special": special(signed, form, s)}
                                 pred = None
                                 if L.exposed(m, ev, bk, ck):
                                     _, hz = L.classify(ty, form, a, b, s, bk, ck, L.CAPW)
@@ -154,7 +163,8 @@ def range_tables(rows8, tier, rng, rep, stats):
                         for s in ss_:
                             bk, ck = rng.choice(BODIES)
                             args = {"r2": [a, b, bk, ck], "r1": [b, bk, ck], "rs": [a, b, s, bk, ck]}[name]
-                            desc = {"part": "range", "type": tag, "signed": signed, "bounds": name, "form": form, "cause": "", "dev": False}
+                            desc = {"part": "range", "type": tag, "signed": signed, "bounds": name, "form": form, "cause": "", "dev": False,
+                                    "special": special(signed, form, s)}
                             if s == 0:
                                 tabs[tag].add("r_%s_%s" % (form, name), args, "E:ValueError", desc)
                                 continue
@@ -247,7 +257,8 @@ def container_table(cases, tier, rng, stats):
     for name, (kind, cls, ctype, it, target, log, cdecl, pdecl, view, path) in L.CONT_VARIANTS.items():
         immutable = cls in ("tuple", "str", "bytes", "frozenset")
         two = view in ("kv", "ek", "ei", "ech")
-        sent = "c" if name == "st_t_ucs4" else L.SENT
+        sent = "c" if "'c'" in pdecl else L.SENT      # value of the loop variable(s) before the loop
+        sent2 = ([L.SENT, "c"] if "v = 'c'" in pdecl else [L.SENT, L.SENT])
         for c in by_kind[kind]:
             mut = is_mut(c["script"])
             if immutable and mut:
@@ -259,7 +270,7 @@ def container_table(cases, tier, rng, stats):
             if c["status"] in ("size", "keys"):
                 want = [vis, "E:RuntimeError"]
             else:
-                fin = view_item(view, c["fin"][0], len(c["script"]) - 1) if c["fin"] else ([sent, sent] if two else sent)
+                fin = view_item(view, c["fin"][0], len(c["script"]) - 1) if c["fin"] else (sent2 if two else sent)
                 want = [vis, fin, c["status"] == "else"]
             desc = {"part": "container", "kind": kind, "variant": name, "cls": cls, "path": path, "ref_status": c["status"],
                     "mutates": mut,
